@@ -24,4 +24,6 @@ def run(chk, args):
     validate_bounds_traces(chk, [
         {"family": "sa", "ns": "2,3,4,5" if q else "2,3,4,5,6", "count": 40 if q else 250, "length": 14 if q else 20},
         {"family": "float_sa", "ns": "3,4,5", "count": 20 if q else 120, "length": 12},
+        # player counts beyond 6: 2^n passes 64 (seeds C04-d, C08-d: a 64-bit key over coalitions silently wraps there)
+        {"family": "sa", "ns": "7,8", "count": 3 if q else 20, "length": 10},
     ])
